@@ -146,6 +146,9 @@ func showResults(res []*ovsdb.OperationResult) string {
 
 // c06Regressions: index configurations and values the history generator does not draw.
 func c06Regressions(o opts, g *gen.G, syms *val.Syms, w *emit.Writer) error {
+	if err := c06UpdateHistory(syms, w); err != nil {
+		return err
+	}
 	sch := dyn.Schema{Name: "C06R", Tables: []dyn.Table{
 		{Name: "A", IsRoot: true, Indexes: [][]string{{"r", "s"}}, Cols: []val.Col{{Name: "r", K: 'a', KT: 'r'}, {Name: "s", K: 'a', KT: 's'}}},
 		{Name: "X", IsRoot: true, Indexes: [][]string{{"a", "b"}, {"b", "a"}}, Cols: []val.Col{{Name: "a", K: 'a', KT: 's'}, {Name: "b", K: 'a', KT: 's'}}},
@@ -458,4 +461,45 @@ func c02Requests(o opts, g *gen.G, syms *val.Syms, w *emit.Writer) error {
 			Key: term, Nontrivial: k > 0, Class: "request", Oracle: failure})
 	}
 	return nil
+}
+
+// c06UpdateHistory: the values of two declared indexes of a row move in one committed update, then the value of one of
+// them moves alone; the row still owns its value of the other index, so a second row claiming it is refused - and the
+// same with the roles of the indexes exchanged (a correspondence case: the model runs the same history).
+func c06UpdateHistory(syms *val.Syms, w *emit.Writer) error {
+	sc := c06SchemaN(0) // indexes [name] and [x y]
+	r1, r2 := gen.UUIDn(31), gen.UUIDn(32)
+	by := func(u string) []Cond { return []Cond{{Col: "_uuid", Fn: "==", Arg: val.VA(val.Uuid(u))}} }
+	row := func(name string, x int64, y string) map[string]val.Val {
+		return map[string]val.Val{"name": val.VA(val.Str(name)), "x": val.VA(val.Int(x)), "y": val.VA(val.Str(y))}
+	}
+	refused := map[int]string{}
+	var txns [][]TOp
+	add := func(mustRefuse string, ops ...TOp) {
+		if mustRefuse != "" {
+			refused[len(txns)] = mustRefuse
+		}
+		txns = append(txns, ops)
+	}
+	add("", TOp{Kind: "insert", Table: "A", UUID: r1, Row: row("a", 1, "p")}, TOp{Kind: "insert", Table: "A", UUID: r2, Row: row("b", 2, "q")})
+	add("", TOp{Kind: "update", Table: "A", Where: by(r1), Row: map[string]val.Val{"name": val.VA(val.Str("a2")), "x": val.VA(val.Int(5))}})
+	add("", TOp{Kind: "update", Table: "A", Where: by(r1), Row: map[string]val.Val{"name": val.VA(val.Str("a3"))}})
+	add("a second row with the (x, y) of the first", TOp{Kind: "insert", Table: "A", UUID: gen.UUIDn(33), Row: row("c", 5, "p")})
+	add("", TOp{Kind: "update", Table: "A", Where: by(r2), Row: map[string]val.Val{"name": val.VA(val.Str("b2")), "y": val.VA(val.Str("q2"))}})
+	add("", TOp{Kind: "update", Table: "A", Where: by(r2), Row: map[string]val.Val{"x": val.VA(val.Int(7))}})
+	add("a second row with the name of the second", TOp{Kind: "insert", Table: "A", UUID: gen.UUIDn(34), Row: row("b2", 9, "z")})
+	add("", TOp{Kind: "insert", Table: "A", UUID: gen.UUIDn(35), Row: row("a2", 1, "p")}) // values the first row has left are free again
+	return emitHistory(w, syms, sc, "indexes after updates", txns,
+		func(ti int, ops []TOp, before map[string]map[string]map[string]val.Val, ob tObs) string {
+			if what, ok := refused[ti]; ok {
+				if ob.Committed {
+					return what + " is committed"
+				}
+				return ""
+			}
+			if !ob.Committed {
+				return "a transaction that creates no duplicate is refused: " + describeOp(ops[0])
+			}
+			return ""
+		})
 }
